@@ -15,6 +15,8 @@ PREDICATES = {
     'uniform_large_weights': lambda case, v: (lambda O: O.size > 0 and float(O.max()) >= 1e6 and len(np.unique(O)) == 1)(
         (lambda W: np.abs(W[(W != 0) & ~np.eye(len(W), dtype=bool)]))(_W(case))),  # all connections (self-weights aside) share one weight >= 1e6
     'narrow8_R_and_D': lambda case, v: bool((case.get('meta') or {}).get('narrow8')),
-    'narrow8_W': lambda case, v: bool((case.get('meta') or {}).get('narrow8')) and _W(case).dtype.itemsize == 1,
+    # 8-bit integer matrices (any optimiser), or unsigned integer matrices of any width in the Louvain routines
+    'narrow8_W': lambda case, v: (bool((case.get('meta') or {}).get('narrow8')) and _W(case).dtype.itemsize == 1)
+    or (_W(case).dtype.kind == 'u' and str(v.get('routine', '')).startswith('modularity_louvain')),
     'gamma_ne_1': lambda case, v: abs(case['params'].get('gamma', 1) - 1) > 1e-12,
 }
